@@ -271,7 +271,7 @@ NewAny == \E i \in DOMAIN NewCases : InShard(i) /\ New(NewCases[i])
 (* the specified result is x.  A case is                                   *)
 (*   [n, solutes : Seq(Subst), solvent : Subst or vessel name, xs : Seq,   *)
 (*    xsolv : Rat, given : "cq"|"ct"|"qt", nu : Seq, du : Seq, qu : Seq,   *)
-(*    tu : unit, cap]                                                      *)
+(*    tu : unit, skew : Rat]                                               *)
 (* When the solvent is a container its portion is an aliquot of xsolv      *)
 (* moles (non-enzyme amount units) of it.                                  *)
 (***************************************************************************)
@@ -294,7 +294,9 @@ SolInputs(c) ==
   LET x == SolTarget(c) IN
   [conc  |-> [i \in DOMAIN c.solutes |-> IF IsZero(Measure(x, c.du[i])) THEN Zero
                                             ELSE Conc(x, c.solutes[i], c.nu[i], c.du[i])],
-   qty   |-> [i \in DOMAIN c.solutes |-> Single1(c.solutes[i], c.xs[i], c.qu[i])],
+   \* (c.skew multiplies the stated quantity of the LAST solute: # 1 makes an over-determined request inconsistent)
+   qty   |-> [i \in DOMAIN c.solutes |-> Mul(Single1(c.solutes[i], c.xs[i], c.qu[i]),
+                                               IF i = Len(c.solutes) THEN c.skew ELSE One)],
    total |-> Measure(x, c.tu)]
 
 \* does mixture x meet the stated inputs (property C05's wording)?
@@ -313,6 +315,7 @@ SolClass(c) ==
                   /\ (c.given \in {"cq", "qt"} => \A i \in DOMAIN c.solutes : IsPos(inp.qty[i]))
                   /\ (c.given \in {"ct", "qt"} => IsPos(inp.total))
   IN  IF ~nameable \/ ~positive THEN "ill_posed"      \* every stated number is positive, as a user would write it
+      ELSE IF c.skew # One THEN (IF Len(c.solutes) >= 2 /\ c.given = "cq" THEN "inconsistent" ELSE "ill_posed")
       ELSE IF ~IsPos(c.xsolv) \/ \E i \in DOMAIN c.xs : ~IsPos(c.xs[i]) THEN "nonpositive"
       ELSE IF SolvIsVessel(c) /\ Lt(Moles(ves[c.solvent].w[1].c), c.xsolv) THEN "overdraw"
       ELSE IF SolvIsVessel(c) /\ Moles(ves[c.solvent].w[1].c) = c.xsolv THEN "boundary"
